@@ -56,7 +56,7 @@ def callOut (G : GenLayer) (cfg : Config) (l : Option IsoName) (pgn src dst prio
   | some .none => .none
   | some .raised => .raised
   | some (.ok m) =>
-    match claimOut cfg l m (leNat payload) iso with
+    match claimOut cfg l m (leNat payload % 18446744073709551616) iso with
     | none => .raised
     | some (iso1, stop) => finishOut cfg m pgn src dst prio iso1 stop
 
@@ -74,8 +74,8 @@ theorem callDecode_out (G : GenLayer) (cfg : Config) (st : State) (i : Input) (p
     | raised => rfl
     | ok m =>
       simp only
-      have h := claimStep_out cfg st i m (leNat payload) iso
-      cases hc : claimStep cfg st i m (leNat payload) iso with
+      have h := claimStep_out cfg st i m (leNat payload % 18446744073709551616) iso
+      cases hc : claimStep cfg st i m (leNat payload % 18446744073709551616) iso with
       | none =>
         rw [hc] at h
         simp only [Option.map_none] at h
